@@ -60,24 +60,33 @@ def calcValue (a : Adsr) : F32 :=
   | .release => add (mul a.offLevel (a.sample decayAt)) zero
   | .atRest  => add (mul zero zero) zero
 
+/-- the states in which `tick` advances the phase accumulator -/
+def _root_.AdsrState.timed : AdsrState → Bool
+  | .attack | .decay | .release => true
+  | _ => false
+
+/-- the state a timed phase rolls over into -/
+def _root_.AdsrState.next : AdsrState → AdsrState
+  | .attack => .decay | .decay => .sustain | .release => .atRest | s => s
+
+/-- `period_of_this_phase` -/
+def period (a : Adsr) : F32 :=
+  match a.state with
+  | .attack => a.attackTime | .decay => a.decayTime | .release => a.releaseTime
+  | _ => minTime
+
 /-- `tick()`; `none` = panic (accumulator overflow) -/
 def tick (a : Adsr) : Option Adsr :=
-  match a.state with
-  | .sustain | .atRest => some { a with value := a.calcValue }
-  | st =>
-    let period := match st with
-      | .attack => a.attackTime | .decay => a.decayTime | _ => a.releaseTime
-    match (a.pa.setPeriod period).tick with
+  if a.state.timed then
+    match (a.pa.setPeriod a.period).tick with
     | none => none
     | some pa =>
-      let (r, pa) := pa.rolledOver
+      -- `rolled_over()` reads and clears the flag; on roll-over the accumulator is reset and the state advances
       let a' : Adsr :=
-        if r then
-          { a with pa := pa.reset,
-                   state := match st with
-                     | .attack => .decay | .decay => .sustain | _ => .atRest }
-        else { a with pa := pa }
+        if pa.rolled then { a with pa := ({ pa with rolled := false } : PhaseAcc).reset, state := a.state.next }
+        else { a with pa := { pa with rolled := false } }
       some { a' with value := a'.calcValue }
+  else some { a with value := a.calcValue }
 
 def gateOn (a : Adsr) : Adsr :=
   match a.state with
